@@ -5,7 +5,9 @@ import (
 	"encoding/base64"
 	"io"
 	"log"
+	"net"
 	"net/netip"
+	"sync/atomic"
 	"time"
 
 	"github.com/IrineSistiana/mosproxy/internal/dnsmsg"
@@ -16,7 +18,22 @@ import (
 	"github.com/valyala/fasthttp"
 )
 
-func (r *router) startFastHttpServer(cfg *ServerConfig) (*fasthttp.Server, error) {
+// fastHttpServer closes its listener itself: fasthttp.Server.Shutdown only knows
+// the listeners of Serve calls that have already begun.
+type fastHttpServer struct {
+	s      *fasthttp.Server
+	l      net.Listener
+	closed atomic.Bool
+}
+
+func (f *fastHttpServer) Shutdown() error {
+	f.closed.Store(true)
+	err := f.s.Shutdown()
+	f.l.Close()
+	return err
+}
+
+func (r *router) startFastHttpServer(cfg *ServerConfig) (*fastHttpServer, error) {
 	const defaultIdleTimeout = time.Second * 30
 	idleTimeout := time.Duration(cfg.IdleTimeout) * time.Second
 	if idleTimeout <= 0 {
@@ -50,14 +67,15 @@ func (r *router) startFastHttpServer(cfg *ServerConfig) (*fasthttp.Server, error
 		Logger:                       log.New(mlog.WriteToLogger(*h.logger, "redirected fasthttp log", "msg"), "", 0),
 	}
 
+	fs := &fastHttpServer{s: s, l: l}
 	go func() {
 		defer l.Close()
 		err := s.Serve(l)
-		if err != nil {
+		if err != nil && !fs.closed.Load() {
 			r.fatal("fasthttp server exited", err)
 		}
 	}()
-	return s, nil
+	return fs, nil
 }
 
 type fasthttpHandler struct {
